@@ -1,7 +1,515 @@
 package sym
 
-// NewArithB returns the bit-precise encoding (64-bit bit-vectors / IEEE doubles).
-func NewArithB(s *Store) Arith { panic("mode B not built yet") }
+import (
+	"fmt"
+	"go/token"
+	"go/types"
+	"math"
+	"math/big"
+	"strconv"
+	"strings"
+)
 
-// ParseFPValue parses an SMT-LIB floating-point model value (fp #b.. #b.. #b..).
-func ParseFPValue(v string) (float64, bool) { return 0, false }
+// ArithB: bit-precise encoding. Go integers are bit-vectors of their width
+// (wrapping, truncated division), float64 is IEEE-754 binary64 with
+// round-to-nearest-even, conversions as in Go on amd64. Concrete operands are
+// folded with Go's own arithmetic, so a fully concrete run is bit-exact.
+type ArithB struct{ S *Store }
+
+func NewArithB(s *Store) Arith { return &ArithB{S: s} }
+
+func (a *ArithB) Name() string { return "B" }
+func (a *ArithB) IntSort(t types.Type) Sort {
+	return Sort{K: KBV, W: intBits(t)}
+}
+func (a *ArithB) FloatSort() Sort { return SFP }
+
+func (s *Store) BVConst(v *big.Int, w int) *Term {
+	m := new(big.Int).Lsh(big.NewInt(1), uint(w))
+	u := new(big.Int).Mod(v, m)
+	return s.intern(&Term{Op: OpConst, Sort: Sort{K: KBV, W: w}, I: u})
+}
+
+func (s *Store) FPConst(f float64) *Term {
+	bits := math.Float64bits(f)
+	return s.intern(&Term{Op: OpConst, Sort: SFP, I: new(big.Int).SetUint64(bits)})
+}
+
+func fpVal(t *Term) (float64, bool) {
+	if t.Op == OpConst && t.Sort.K == KFP {
+		return math.Float64frombits(t.I.Uint64()), true
+	}
+	return 0, false
+}
+
+// signed value of a BV constant
+func bvSigned(t *Term) *big.Int {
+	v := new(big.Int).Set(t.I)
+	if v.Bit(t.Sort.W-1) == 1 {
+		v.Sub(v, new(big.Int).Lsh(big.NewInt(1), uint(t.Sort.W)))
+	}
+	return v
+}
+
+func (a *ArithB) IntConst(v *big.Int, t types.Type) *Term { return a.S.BVConst(v, intBits(t)) }
+func (a *ArithB) FloatConst(f float64) *Term              { return a.S.FPConst(f) }
+
+func (a *ArithB) IndexInt(x *Term, t types.Type) *Term {
+	s := a.S
+	if x.Sort.K == KInt {
+		return x
+	}
+	if x.IsConst() {
+		if isUnsigned(t) {
+			return s.BigInt(x.I)
+		}
+		return s.BigInt(bvSigned(x))
+	}
+	if leaves(x) > 0 {
+		return s.lift1(x, func(c *Term) *Term { return a.IndexInt(c, t) })
+	}
+	n := s.Raw("bv2nat", SInt, x)
+	if isUnsigned(t) {
+		return n
+	}
+	neg := s.Raw("bvslt", SBool, x, s.BVConst(big.NewInt(0), x.Sort.W))
+	return s.Ite(neg, s.Sub(n, s.BigInt(new(big.Int).Lsh(big.NewInt(1), uint(x.Sort.W)))), n)
+}
+
+func (a *ArithB) FromIndexInt(x *Term, t types.Type) *Term {
+	s := a.S
+	w := intBits(t)
+	if x.Sort.K == KBV {
+		return x
+	}
+	if x.IsConst() {
+		return s.BVConst(x.I, w)
+	}
+	if leaves(x) > 0 {
+		return s.lift1(x, func(c *Term) *Term { return s.BVConst(c.I, w) })
+	}
+	return s.Raw(fmt.Sprintf("(_ int2bv %d)", w), Sort{K: KBV, W: w}, x)
+}
+
+func (a *ArithB) IntBin(e *Exec, st *State, op token.Token, x, y *Term, t types.Type, where string) *Term {
+	s := a.S
+	w := intBits(t)
+	so := Sort{K: KBV, W: w}
+	uns := isUnsigned(t)
+	if y.Sort.W != w && (op == token.SHL || op == token.SHR) {
+		// shift count of another width: resize
+		if y.IsConst() {
+			y = s.BVConst(y.I, w)
+		} else if y.Sort.W < w {
+			y = s.Raw(fmt.Sprintf("(_ zero_extend %d)", w-y.Sort.W), so, y)
+		} else {
+			y = s.Raw(fmt.Sprintf("(_ extract %d 0)", w-1), so, y)
+		}
+	}
+	if x.IsConst() && y.IsConst() {
+		xv, yv := bvSigned(x), bvSigned(y)
+		if uns {
+			xv, yv = x.I, y.I
+		}
+		r := new(big.Int)
+		switch op {
+		case token.ADD:
+			r.Add(xv, yv)
+		case token.SUB:
+			r.Sub(xv, yv)
+		case token.MUL:
+			r.Mul(xv, yv)
+		case token.QUO, token.REM:
+			if yv.Sign() == 0 {
+				e.abort(st, "divzero", where, "integer divide by zero")
+				return s.BVConst(big.NewInt(0), w)
+			}
+			if op == token.QUO {
+				r.Quo(xv, yv)
+			} else {
+				r.Rem(xv, yv)
+			}
+		case token.AND:
+			r.And(x.I, y.I)
+		case token.OR:
+			r.Or(x.I, y.I)
+		case token.XOR:
+			r.Xor(x.I, y.I)
+		case token.AND_NOT:
+			r.AndNot(x.I, y.I)
+		case token.SHL:
+			if y.I.Cmp(big.NewInt(int64(w))) >= 0 {
+				r.SetInt64(0)
+			} else {
+				r.Lsh(x.I, uint(y.I.Uint64()))
+			}
+		case token.SHR:
+			if y.I.Cmp(big.NewInt(int64(w))) >= 0 {
+				if !uns && xv.Sign() < 0 {
+					r.SetInt64(-1)
+				}
+			} else {
+				r.Rsh(xv, uint(y.I.Uint64()))
+			}
+		}
+		return s.BVConst(r, w)
+	}
+	if r, ok := s.lift2(x, y, func(p, q *Term) *Term { return a.IntBin(e, st, op, p, q, t, where) }); ok && op != token.QUO && op != token.REM {
+		return r
+	}
+	var name string
+	switch op {
+	case token.ADD:
+		name = "bvadd"
+	case token.SUB:
+		name = "bvsub"
+	case token.MUL:
+		name = "bvmul"
+	case token.QUO, token.REM:
+		isZero := s.Eq(y, s.BVConst(big.NewInt(0), w))
+		if !isZero.IsFalse() {
+			e.abortIf(st, isZero, "divzero", where)
+			if st.dead() {
+				return s.BVConst(big.NewInt(0), w)
+			}
+		}
+		switch {
+		case op == token.QUO && uns:
+			name = "bvudiv"
+		case op == token.QUO:
+			name = "bvsdiv"
+		case uns:
+			name = "bvurem"
+		default:
+			name = "bvsrem"
+		}
+	case token.AND:
+		name = "bvand"
+	case token.OR:
+		name = "bvor"
+	case token.XOR:
+		name = "bvxor"
+	case token.AND_NOT:
+		return s.Raw("bvand", so, x, s.Raw("bvnot", so, y))
+	case token.SHL:
+		name = "bvshl"
+	case token.SHR:
+		if uns {
+			name = "bvlshr"
+		} else {
+			name = "bvashr"
+		}
+	}
+	return s.Raw(name, so, x, y)
+}
+
+func (a *ArithB) IntCmp(op token.Token, x, y *Term, t types.Type) *Term {
+	s := a.S
+	uns := isUnsigned(t)
+	if x.IsConst() && y.IsConst() {
+		xv, yv := bvSigned(x), bvSigned(y)
+		if uns {
+			xv, yv = x.I, y.I
+		}
+		c := xv.Cmp(yv)
+		switch op {
+		case token.EQL:
+			return s.Bool(c == 0)
+		case token.NEQ:
+			return s.Bool(c != 0)
+		case token.LSS:
+			return s.Bool(c < 0)
+		case token.LEQ:
+			return s.Bool(c <= 0)
+		case token.GTR:
+			return s.Bool(c > 0)
+		case token.GEQ:
+			return s.Bool(c >= 0)
+		}
+	}
+	if r, ok := s.lift2(x, y, func(p, q *Term) *Term { return a.IntCmp(op, p, q, t) }); ok {
+		return r
+	}
+	lt, le := "bvslt", "bvsle"
+	if uns {
+		lt, le = "bvult", "bvule"
+	}
+	switch op {
+	case token.EQL:
+		return s.Eq(x, y)
+	case token.NEQ:
+		return s.Not(s.Eq(x, y))
+	case token.LSS:
+		return s.Raw(lt, SBool, x, y)
+	case token.LEQ:
+		return s.Raw(le, SBool, x, y)
+	case token.GTR:
+		return s.Raw(lt, SBool, y, x)
+	case token.GEQ:
+		return s.Raw(le, SBool, y, x)
+	}
+	panic("cmp")
+}
+
+func (a *ArithB) IntNeg(e *Exec, st *State, x *Term, t types.Type, where string) *Term {
+	if x.IsConst() {
+		return a.S.BVConst(new(big.Int).Neg(bvSigned(x)), x.Sort.W)
+	}
+	return a.S.Raw("bvneg", x.Sort, x)
+}
+
+const rne = "RNE"
+
+func (s *Store) rm(name string) *Term { return s.RawConst(name, Sort{K: KInt, W: 999}) }
+
+func (a *ArithB) FloatBin(e *Exec, st *State, op token.Token, x, y *Term, where string) *Term {
+	s := a.S
+	if xf, ok := fpVal(x); ok {
+		if yf, ok := fpVal(y); ok {
+			switch op {
+			case token.ADD:
+				return s.FPConst(xf + yf)
+			case token.SUB:
+				return s.FPConst(xf - yf)
+			case token.MUL:
+				return s.FPConst(xf * yf)
+			case token.QUO:
+				return s.FPConst(xf / yf)
+			}
+		}
+	}
+	var name string
+	switch op {
+	case token.ADD:
+		name = "fp.add"
+	case token.SUB:
+		name = "fp.sub"
+	case token.MUL:
+		name = "fp.mul"
+	case token.QUO:
+		name = "fp.div"
+	}
+	return s.Raw(name+" "+rne, SFP, x, y)
+}
+
+func (a *ArithB) FloatCmp(op token.Token, x, y *Term) *Term {
+	s := a.S
+	if xf, ok := fpVal(x); ok {
+		if yf, ok := fpVal(y); ok {
+			switch op {
+			case token.EQL:
+				return s.Bool(xf == yf)
+			case token.NEQ:
+				return s.Bool(xf != yf)
+			case token.LSS:
+				return s.Bool(xf < yf)
+			case token.LEQ:
+				return s.Bool(xf <= yf)
+			case token.GTR:
+				return s.Bool(xf > yf)
+			case token.GEQ:
+				return s.Bool(xf >= yf)
+			}
+		}
+	}
+	switch op {
+	case token.EQL:
+		return s.Raw("fp.eq", SBool, x, y)
+	case token.NEQ:
+		return s.Not(s.Raw("fp.eq", SBool, x, y))
+	case token.LSS:
+		return s.Raw("fp.lt", SBool, x, y)
+	case token.LEQ:
+		return s.Raw("fp.leq", SBool, x, y)
+	case token.GTR:
+		return s.Raw("fp.lt", SBool, y, x)
+	case token.GEQ:
+		return s.Raw("fp.leq", SBool, y, x)
+	}
+	panic("fcmp")
+}
+
+func (a *ArithB) FloatNeg(x *Term) *Term {
+	if f, ok := fpVal(x); ok {
+		return a.S.FPConst(-f)
+	}
+	return a.S.Raw("fp.neg", SFP, x)
+}
+
+func (a *ArithB) ConvIntInt(e *Exec, st *State, x *Term, from, to types.Type, where string) *Term {
+	s := a.S
+	fw, tw := intBits(from), intBits(to)
+	if x.IsConst() {
+		if isUnsigned(from) {
+			return s.BVConst(x.I, tw)
+		}
+		return s.BVConst(bvSigned(x), tw)
+	}
+	so := Sort{K: KBV, W: tw}
+	switch {
+	case tw == fw:
+		return x
+	case tw < fw:
+		return s.Raw(fmt.Sprintf("(_ extract %d 0)", tw-1), so, x)
+	case isUnsigned(from):
+		return s.Raw(fmt.Sprintf("(_ zero_extend %d)", tw-fw), so, x)
+	}
+	return s.Raw(fmt.Sprintf("(_ sign_extend %d)", tw-fw), so, x)
+}
+
+func (a *ArithB) ConvIntFloat(x *Term, from types.Type) *Term {
+	s := a.S
+	if x.IsConst() {
+		if isUnsigned(from) {
+			f, _ := new(big.Float).SetInt(x.I).Float64()
+			return s.FPConst(f)
+		}
+		f, _ := new(big.Float).SetInt(bvSigned(x)).Float64()
+		return s.FPConst(f)
+	}
+	if isUnsigned(from) {
+		return s.Raw("(_ to_fp_unsigned 11 53) "+rne, SFP, x)
+	}
+	return s.Raw("(_ to_fp 11 53) "+rne, SFP, x)
+}
+
+func (a *ArithB) ConvFloatInt(e *Exec, st *State, x *Term, to types.Type, where string) *Term {
+	s := a.S
+	w := intBits(to)
+	if f, ok := fpVal(x); ok {
+		tr := math.Trunc(f)
+		bf := new(big.Float).SetFloat64(tr)
+		bi, _ := bf.Int(nil)
+		lo, hi := intRange(to)
+		if math.IsNaN(f) || bi.Cmp(lo) < 0 || bi.Cmp(hi) > 0 {
+			e.side("f2i-range", st, s.False, where)
+			return s.BVConst(big.NewInt(0), w)
+		}
+		return s.BVConst(bi, w)
+	}
+	// in-range obligation: Go leaves the out-of-range result implementation-defined
+	lo, hi := intRange(to)
+	lof, _ := new(big.Float).SetInt(lo).Float64()
+	hif, _ := new(big.Float).SetInt(hi).Float64()
+	inr := s.And(s.Raw("fp.leq", SBool, s.FPConst(lof), x), s.Raw("fp.lt", SBool, x, s.FPConst(hif)))
+	if w == 64 {
+		e.side("f2i-range", st, inr, where)
+	}
+	if isUnsigned(to) {
+		return s.Raw(fmt.Sprintf("(_ fp.to_ubv %d) RTZ", w), Sort{K: KBV, W: w}, x)
+	}
+	return s.Raw(fmt.Sprintf("(_ fp.to_sbv %d) RTZ", w), Sort{K: KBV, W: w}, x)
+}
+
+func (a *ArithB) Math(e *Exec, st *State, name string, args []*Term, where string) (*Term, bool) {
+	s := a.S
+	conc := make([]float64, len(args))
+	allc := true
+	for i, t := range args {
+		f, ok := fpVal(t)
+		if !ok {
+			allc = false
+			break
+		}
+		conc[i] = f
+	}
+	if allc {
+		switch name {
+		case "Abs":
+			return s.FPConst(math.Abs(conc[0])), true
+		case "Max":
+			return s.FPConst(math.Max(conc[0], conc[1])), true
+		case "Min":
+			return s.FPConst(math.Min(conc[0], conc[1])), true
+		case "Floor":
+			return s.FPConst(math.Floor(conc[0])), true
+		case "Ceil":
+			return s.FPConst(math.Ceil(conc[0])), true
+		case "Trunc":
+			return s.FPConst(math.Trunc(conc[0])), true
+		case "Round":
+			return s.FPConst(math.Round(conc[0])), true
+		case "Sqrt":
+			return s.FPConst(math.Sqrt(conc[0])), true
+		case "Pow":
+			return s.FPConst(math.Pow(conc[0], conc[1])), true
+		case "Exp":
+			return s.FPConst(math.Exp(conc[0])), true
+		case "Log":
+			return s.FPConst(math.Log(conc[0])), true
+		case "Mod":
+			return s.FPConst(math.Mod(conc[0], conc[1])), true
+		case "Sin":
+			return s.FPConst(math.Sin(conc[0])), true
+		case "Cos":
+			return s.FPConst(math.Cos(conc[0])), true
+		}
+		return nil, false
+	}
+	switch name {
+	case "Abs":
+		return s.Raw("fp.abs", SFP, args[0]), true
+	case "Max": // operands are assumed not NaN (inputs are range-constrained); +0/-0 ordering irrelevant here
+		return s.Ite(s.Raw("fp.lt", SBool, args[0], args[1]), args[1], args[0]), true
+	case "Min":
+		return s.Ite(s.Raw("fp.lt", SBool, args[1], args[0]), args[1], args[0]), true
+	case "Floor":
+		return s.Raw("fp.roundToIntegral RTN", SFP, args[0]), true
+	case "Ceil":
+		return s.Raw("fp.roundToIntegral RTP", SFP, args[0]), true
+	case "Trunc":
+		return s.Raw("fp.roundToIntegral RTZ", SFP, args[0]), true
+	case "Round":
+		return s.Raw("fp.roundToIntegral RNA", SFP, args[0]), true
+	case "Sqrt":
+		return s.Raw("fp.sqrt "+rne, SFP, args[0]), true
+	}
+	return nil, false
+}
+
+// ParseFPValue parses an SMT-LIB floating-point model value.
+func ParseFPValue(v string) (float64, bool) {
+	v = strings.TrimSpace(v)
+	if strings.HasPrefix(v, "(fp ") {
+		f := strings.Fields(strings.Trim(v, "()"))
+		if len(f) != 4 {
+			return 0, false
+		}
+		bits := ""
+		for _, p := range f[1:] {
+			switch {
+			case strings.HasPrefix(p, "#b"):
+				bits += p[2:]
+			case strings.HasPrefix(p, "#x"):
+				n, ok := new(big.Int).SetString(p[2:], 16)
+				if !ok {
+					return 0, false
+				}
+				bits += fmt.Sprintf("%0*b", 4*len(p[2:]), n)
+			default:
+				return 0, false
+			}
+		}
+		if len(bits) != 64 {
+			return 0, false
+		}
+		u, err := strconv.ParseUint(bits, 2, 64)
+		if err != nil {
+			return 0, false
+		}
+		return math.Float64frombits(u), true
+	}
+	switch {
+	case strings.Contains(v, "+zero"):
+		return 0, true
+	case strings.Contains(v, "-zero"):
+		return math.Copysign(0, -1), true
+	case strings.Contains(v, "+oo"):
+		return math.Inf(1), true
+	case strings.Contains(v, "-oo"):
+		return math.Inf(-1), true
+	case strings.Contains(v, "NaN"):
+		return math.NaN(), true
+	}
+	return 0, false
+}
